@@ -36,7 +36,10 @@ def pnum(tok):
 
 
 class Replayer:
-    def __init__(self, sess=None):
+    def __init__(self, sess=None, follow=True):
+        """follow=True: an existing object is set to the script's recorded pre-state before a call (standalone
+        transitions, replay files).  follow=False: live values are kept (behaviours replayed on live objects)."""
+        self.follow = follow
         self.sess = sess or Session()
         self.objs = {}
         self.models = {}
@@ -94,9 +97,9 @@ class Replayer:
                     o.id = p["uid"]
                 self.objs[ref] = o
                 return o
-            # follow the script's pre-state
-            o.mu = pnum(p["mu"])
-            o.sigma = pnum(p["sigma"])
+            if self.follow:
+                o.mu = pnum(p["mu"])
+                o.sigma = pnum(p["sigma"])
             return o
         return Opaque()
 
@@ -122,21 +125,44 @@ class Replayer:
         if op == "rating":
             mh = self.model_for(ev["model"])
             out = s.new_rating(mh, mu=self.opt(ev["mu"]), sigma=self.opt(ev["sigma"]), name=self.opt(ev["name"]), group=g, role=r)
+            self.bind_result(ev, out)
             return out
         if op == "create":
             mh = self.model_for(ev["model"])
-            return s.create_rating(mh, self.decode(ev["arg"]), name=self.opt(ev["name"]), group=g, role=r)
+            out = s.create_rating(mh, self.decode(ev["arg"]), name=self.opt(ev["name"]), group=g, role=r)
+            self.bind_result(ev, out)
+            return out
         if op == "deepcopy":
-            return s.deepcopy(self.decode(ev["arg"]), group=g, role=r)
+            out = s.deepcopy(self.decode(ev["arg"]), group=g, role=r)
+            self.bind_result(ev, out)
+            return out
         if op == "cmp":
             return s.compare(ev["cmpop"], self.decode(ev["a"]), self.decode(ev["b"]), group=g, role=r)
         if op == "ordinal":
             return s.ordinal(self.decode(ev["a"]), z=self.opt(ev["z"]), group=g, role=r)
+        if op == "assign":
+            o = self.decode(ev["a"])
+            return s.assign(o, mu=pnum(ev["a_after"]["mu"]), sigma=pnum(ev["a_after"]["sigma"]))
         if op == "sorted":
             return s.sort(self.decode(ev["arg"]), group=g, role=r)
         if op == "hash":
             return s.hash(self.decode(ev["a"]), group=g, role=r)
         raise ValueError("unknown op " + op)
+
+    def bind_result(self, ev, out):
+        """Objects created by a scripted call become the script's refs (so later scripted calls can name them)."""
+        want = ev.get("out", {}).get("value")
+        if not want or out is None:
+            return
+
+        def walk(p, x):
+            if p.get("t") == "rating" and p.get("ref"):
+                self.objs.setdefault(p["ref"], x)
+            elif p.get("t") in ("list", "tuple") and isinstance(x, (list, tuple)) and len(x) == len(p["items"]):
+                for q, y in zip(p["items"], x):
+                    walk(q, y)
+
+        walk(want, out)
 
     def run(self, events):
         for ev in events:
